@@ -200,7 +200,7 @@ std::vector<std::string> reference_session(const std::vector<const HOp*>& ops, i
     if (pid == 0) {
         close(p[0]);
         signal(SIGALRM, SIG_DFL);
-        g_on_ceiling = nullptr;
+        g_on_ceiling = [] { _exit(9); };  // the in-process execution reports it; the reference just ends here
         g_on_exit_in_call = nullptr;
         Session s;
         for (auto* op : ops) {
@@ -209,7 +209,7 @@ std::vector<std::string> reference_session(const std::vector<const HOp*>& ops, i
             alarm((unsigned)watchdog_s);
             CallResult r = run_call(s, c, 0);
             alarm(0);
-            write_blob(p[1], record_of(s, c, r));
+            write_blob(p[1], std::string{r.env_faulted() ? "F" : "-"} + record_of(s, c, r));
         }
         _exit(0);
     }
@@ -238,6 +238,49 @@ std::vector<std::string> reference_session(const std::vector<const HOp*>& ops, i
         off += 4 + n;
     }
     return recs;
+}
+
+/** true when `rec` equals `ref` except that some positions of `ref` read "?" (unknown) in `rec` */
+bool equal_modulo_unknown(const std::string& ref, const std::string& rec)
+{
+    size_t i = 0, j = 0;
+    bool any = false;
+    while (i < ref.size() && j < rec.size()) {
+        if (ref[i] == rec[j]) {
+            ++i;
+            ++j;
+            continue;
+        }
+        if (rec[j] == '?' && j > 0 && (rec[j - 1] == '@' || rec[j - 1] == '-')) {
+            // skip the position token of ref: path:line:col (no blank, ')' or '-' inside)
+            // path ':' line ':' column
+            size_t k = i;
+            bool found = false;
+            while (k < ref.size() && ref[k] != ' ' && ref[k] != ')' && ref[k] != '\n') {
+                if (ref[k] == ':' && k + 1 < ref.size() && std::isdigit((unsigned char)ref[k + 1])) {
+                    size_t m = k + 1;
+                    while (m < ref.size() && std::isdigit((unsigned char)ref[m]))
+                        ++m;
+                    if (m < ref.size() && ref[m] == ':' && m + 1 < ref.size() && std::isdigit((unsigned char)ref[m + 1])) {
+                        ++m;
+                        while (m < ref.size() && std::isdigit((unsigned char)ref[m]))
+                            ++m;
+                        i = m;
+                        found = true;
+                        break;
+                    }
+                }
+                ++k;
+            }
+            if (!found)
+                return false;
+            ++j;
+            any = true;
+            continue;
+        }
+        return false;
+    }
+    return any && i == ref.size() && j == rec.size();
 }
 
 }  // namespace
@@ -380,6 +423,7 @@ void profile_history(RunCtx& ctx)
     std::vector<Session> live(nsessions);
     std::vector<size_t> done(nsessions, 0);
     std::vector<int> wrap_epoch_at_load(nsessions, 0);
+    std::vector<bool> fault_diverged(nsessions, false);
     int wraps = 0;
     for (size_t i = 0; i < kept.size(); ++i) {
         const HOp& op = kept[i];
@@ -425,25 +469,39 @@ void profile_history(RunCtx& ctx)
             ctx.count("calls-without-reference");
             continue;
         }
-        if (faulted || was_tainted || s.tainted) {
+        const bool ref_faulted = refs[op.session][k][0] == 'F';
+        if (load)
+            fault_diverged[op.session] = false;
+        if (ref_faulted != faulted) {
+            // the k-th allocation of a call is not the same allocation in every history (lazily initialised
+            // statics allocate on first use only), so an injected failure may fire on one side only; from here
+            // on the two sides hold different documents until the session loads a new one
+            fault_diverged[op.session] = true;
+            ctx.count("alloc-fault-fired-on-one-side-only");
+        }
+        if (faulted || ref_faulted || was_tainted || s.tainted || fault_diverged[op.session]) {
             ctx.count("calls-not-compared-class-C");
             continue;
         }
         ctx.count("calls-compared");
-        const std::string& ref = refs[op.session][k];
+        const std::string ref = refs[op.session][k].substr(1);
         if (rec != ref) {
             const bool wrap_affected = wraps != wrap_epoch_at_load[op.session] || after < before;
             std::string d = first_diff(ref, rec);
             std::string kind = first_word(d.substr(d.find('[') + 1));
             std::string sig;
+            // position 2^31-1 is the library's "unknown position" sentinel: a token that starts or ends exactly there
+            const bool sentinel = before <= 0x7fffffffu && after >= 0x7fffffffu && equal_modulo_unknown(ref, rec);
             if (wrap_affected)
                 sig = "clock-wrap-2^32-inside-call|" + (r.threw ? "exception=" + r.exc_class : "diff=" + kind);
+            else if (sentinel)
+                sig = "position-equals-unknown-sentinel-2^31-1";
             else
                 sig = std::string{"history|"} + entry_name(op.call.entry) + "|" + kind;
             std::ostringstream det;
             det << "call " << op.call.str() << " (" << op.what << ") of session " << op.session << " differs from the same call in a pristine process: "
                 << d << "; clock before=" << before << " after=" << after << " arena=" << arena;
-            if (ctx.violation("C15", wrap_affected ? "clock-wrap" : "history-dependent-result", sig, det.str()))
+            if (ctx.violation("C15", wrap_affected ? "clock-wrap" : (sentinel ? "position-sentinel" : "history-dependent-result"), sig, det.str()))
                 return;
         }
     }
